@@ -66,6 +66,9 @@ def run(prop, tier, seed):
         for kind in ('cache', 'fanout'):
             tid += 1
             jobs.append((kind, c, seed + tid, tid))
+    for c in ([], ['delete-file'], ['add-file-top', 'truncate-file'], ['count+1']):
+        tid += 1
+        jobs.append(('cache-symlink', c, seed + tid, tid))
     traces = pmap(_run, jobs, procs=14)
     out.traces = len(traces)
     out.events = len(traces)
